@@ -405,6 +405,27 @@ def _is_str(e, strnames, ro):
 
 
 # ----------------------------------------------------------------------------------------------------------------------
+def erroneous_polarity(m):
+    """The value of parse_graphic_sequence's second parameter under which items whose function could not be determined are KEPT (True for
+    `add_erroneous`; False for a parameter of the opposite sense such as `strict`): read off the guards of the appends that mention it.  None when
+    the guards disagree."""
+    f = m.fn('parse_graphic_sequence')
+    ae = f.params[1]
+    votes = set()
+    for n in f.walk():
+        if isinstance(n, ast.If) and ae in names_in(n.test) and any(
+                isinstance(x, ast.Expr) and call_name(x.value) == 'append' and x.value.args and call_name(x.value.args[0]) == 'AnsiSetting' for x in n.body):
+            others = {nm: True for nm in names_in(n.test) if nm != ae}
+            tv = {b: eval_guard(n.test, flag_valuation(dict(others, **{ae: b}))) for b in (True, False)}
+            if tv[True] is True and tv[False] is False:
+                votes.add(True)
+            elif tv[False] is True and tv[True] is False:
+                votes.add(False)
+            else:
+                votes.add(None)
+    return votes.pop() if len(votes) == 1 else None
+
+
 @rule('P19', 'erroneous-paths: parse_graphic_sequence keeps every integer token with add_erroneous=True, skips only a colour code without '
              'its setup otherwise, and an empty sequence is a reset', floor=4)
 def P19(m, R):
@@ -442,7 +463,13 @@ def P19(m, R):
             env['#ev'] = ev + ((tgt, norm(st.value.args[0])),)
     # group start: abstract interpretation of the scan as a state machine over (accumulator empty?, remaining count) -- whenever no
     # group is pending, an integer token must be matched against the colour functions before it is stored
-    _group_start(R, f, loop, value, cur_set, ae)
+    pol = erroneous_polarity(m)
+    R.check(pol is not False, f, f.node, 'the second parameter, when True, keeps the items whose function could not be determined (the sense of add_erroneous)',
+            'the second parameter (%s) has the opposite sense of add_erroneous: parse_graphic_sequence(seq, True) now DROPS unknown codes and incomplete groups, '
+            'parse_graphic_sequence(seq, False) keeps them; every caller that passes the flag by position, or by the name add_erroneous, gets the other behaviour' % ae,
+            construct='flag sense')
+    pol = True if pol is None else pol      # the flag value that keeps erroneous items; below, "add_erroneous" names that sense
+    _group_start(R, f, loop, value, cur_set, ae, pol)
     # dangling group: flushed iff add_erroneous
     tail = f.body[f.body.index(loop) + 1:]
     g = next((n for n in tail if isinstance(n, ast.If) and cur_set in names_in(n.test)), None)
@@ -450,14 +477,14 @@ def P19(m, R):
     if g is None:
         R.viol(f, f.node, 'an incomplete group at the end is never emitted, not even with add_erroneous=True', construct=cons)
     else:
-        tt = {(a, b): eval_guard(g.test, flag_valuation({cur_set: a, ae: b})) for a in (True, False) for b in (True, False)}
+        tt = {(a, b): eval_guard(g.test, flag_valuation({cur_set: a, ae: (b if pol else not b)})) for a in (True, False) for b in (True, False)}
         ok = tt == {(True, True): True, (True, False): False, (False, True): False, (False, False): False} and \
             any(call_name(x) == 'append' and norm(x.args[0]) == 'AnsiSetting(%s)' % cur_set for x in ast.walk(g) if isinstance(x, ast.Call))
         R.check(ok, f, g, 'an incomplete group is emitted exactly when add_erroneous=True', 'emitted for (non-empty, add_erroneous) in %s' % sorted(k for k, v in tt.items() if v),
                 construct=cons)
 
 
-def _group_start(R, f, loop, value, cur_set, ae):
+def _group_start(R, f, loop, value, cur_set, ae, pol=True):
     cons = 'group start'
     dec = [n for n in ast.walk(loop) if isinstance(n, ast.AugAssign) and isinstance(n.op, ast.Sub) and const_val(n.value) == 1 and isinstance(n.target, ast.Name)]
     if len(dec) != 1:
@@ -502,7 +529,7 @@ def _group_start(R, f, loop, value, cur_set, ae):
         if tx == 'isinstance(%s, int)' % value:
             return st_['is_int']
         if tx == ae:
-            return st_['ae']
+            return st_['ae'] if pol else not st_['ae']
         if isinstance(t, ast.Name) and t.id in st_['vars']:
             v = st_['vars'][t.id]
             return v if isinstance(v, bool) else (None if v == '?' else (False if v is None else True))
